@@ -1,18 +1,19 @@
-"""Proof bundle W: C05 for ClockSourceType::Tsc loggers — the TSC -> epoch conversion of backend/RdtscClock.h brought inside
-the model (lean/QuillModel/Tsc/*.lean, Props/C05Tsc.lean, Obligations/Tsc.lean, extraction tools/extractors/tsc.py;
-correspondence stream tools/tsc_stream.py = harness h3_tsc on the real class vs `driver tsc`).
-Proved: monotone between resyncs, the exact effect of a resync (shift by the drift ± 1 ns), per-thread order independent of
-the conversion; witnesses that the code as it is writes decreasing timestamps / inverts two threads across a resync (F33).
-The ordering of TSC statements ACROSS a resync is not claimed (TODO: coordinator decides fix vs known finding)."""
+"""Audit bundle (statement review round): theorems added beside the prover bundles, in NEW Props files only.
+C03: delivery (every accepted statement is popped after a quiet drain) — the liveness half the safety theorems of bundle A lack.
+C10: finding F26 — a sink fault during a backtrace replay. Witness for the pinned callback (the next flush replays
+     already-written statements again; level-9 statements are outside every `isOrd` theorem of bundle A), and for the
+     repaired callback (extracted flag `replayCatchesPerEvent`): the replay is per event, never lets an exception escape,
+     always clears the ring, writes each stored statement at most once per sink (level-inclusive count `bwcount`)."""
+import os
+
+_HAVE_A = os.path.exists(os.path.join(os.path.dirname(os.path.abspath(__file__)), "backend_thm_A.py"))
 THEOREMS = {
-    "C05": ["Tsc.C05Tsc_monotone_between_resyncs", "Tsc.C05Tsc_value_independent_of_reads", "Tsc.C05Tsc_resync_shift",
-            "Tsc.C05Tsc_inversion_bound", "Tsc.C05Tsc_no_inversion_when_behind", "Tsc.C05Tsc_no_inversion_beyond_drift",
-            "Tsc.C05Tsc_exact_scale_ok", "Tsc.C05Tsc_backstep_witness", "Tsc.C05Tsc_inversion_witness",
-            "Tsc.C05Tsc_thread_order_any_conversion", "Tsc.C05Tsc_pop_takes_least_converted",
-            "Obligations.tsc_extraction_complete", "Obligations.tsc_params_are_code", "Obligations.tsc_publication_orders",
-            "Obligations.tsc_default_resync_interval", "Obligations.tsc_structure",
-            "Obligations.C05Tsc_monotone_between_resyncs_extracted", "Obligations.C05Tsc_backstep_witness_extracted"],
-}
-MODULES = {"C05": ["QuillModel.Props.C05Tsc"]}
-OBLIG = ["QuillModel.Obligations.Tsc"]
-OBLIG_BY_PROP = {"C05": ["QuillModel.Obligations.Tsc"]}
+    "C03": ["Backend.C03_delivered_after_quiet_drain"],
+    "C10": ["Backend.C10_replay_fault_duplicates", "Backend.C10_replay_fault_repaired", "Backend.C10_replay_without_fault_once",
+            "Backend.C10_replay_is_per_event", "Backend.C10_replay_never_escapes", "Backend.C10_replay_clears_ring",
+            "Backend.C10_replay_twice_writes_nothing", "Backend.C10_replay_once_per_flush",
+            "Obligations.C10_replay_extracted", "Obligations.C10_replay_schedule_extracted"],
+} if _HAVE_A else {}
+MODULES = {"C03": ["QuillModel.Props.C03Delivery"], "C10": ["QuillModel.Props.C10Replay"]} if _HAVE_A else {}
+OBLIG = ["QuillModel.Obligations.BackendW_C10"] if _HAVE_A else []
+OBLIG_BY_PROP = {"C10": ["QuillModel.Obligations.BackendW_C10"]} if _HAVE_A else {}
